@@ -43,29 +43,32 @@ var (
 )
 
 type (
-	namedInt2   int
-	namedFloat  float64
-	namedBool   bool
-	namedBytes  []byte
-	namedSlice  []int
-	namedMap    map[string]int
-	safeT       string // SafeValue-marked
-	safeIntT    int
-	strT        struct{ s string }
-	ptrStrT     struct{ s string }
-	errT        struct{ msg string }
-	wrapErrT    struct{ msg string; inner error }
-	goT         struct{ s string }
-	fmtT        struct{ payload string }
-	recFmtT     struct{ tag string }
-	errFmtT     struct{ msg string }
-	strErrT     struct{ msg string }
-	panStrT     struct{ pl interface{} }
-	panErrT     struct{ pl interface{} }
-	panFmtT     struct{ pl interface{} }
-	panGoT      struct{ pl interface{} }
-	panPayT     struct{ s string } // a panic payload whose String panics (double panic)
-	structT     struct {
+	namedInt2  int
+	namedFloat float64
+	namedBool  bool
+	namedBytes []byte
+	namedSlice []int
+	namedMap   map[string]int
+	safeT      string // SafeValue-marked
+	safeIntT   int
+	strT       struct{ s string }
+	ptrStrT    struct{ s string }
+	errT       struct{ msg string }
+	wrapErrT   struct {
+		msg   string
+		inner error
+	}
+	goT     struct{ s string }
+	fmtT    struct{ payload string }
+	recFmtT struct{ tag string }
+	errFmtT struct{ msg string }
+	strErrT struct{ msg string }
+	panStrT struct{ pl interface{} }
+	panErrT struct{ pl interface{} }
+	panFmtT struct{ pl interface{} }
+	panGoT  struct{ pl interface{} }
+	panPayT struct{ s string } // a panic payload whose String panics (double panic)
+	structT struct {
 		A int
 		b string
 		C interface{}
@@ -81,14 +84,14 @@ type (
 	regStrT     string
 )
 
-func (safeT) SafeValue()            {}
-func (safeIntT) SafeValue()         {}
-func (s strT) String() string       { return s.s }
-func (s *ptrStrT) String() string   { return s.s }
-func (e errT) Error() string        { return e.msg }
-func (e wrapErrT) Error() string    { return e.msg + ": " + e.inner.Error() }
-func (e wrapErrT) Unwrap() error    { return e.inner }
-func (g goT) GoString() string      { return "go:" + g.s }
+func (safeT) SafeValue()                     {}
+func (safeIntT) SafeValue()                  {}
+func (s strT) String() string                { return s.s }
+func (s *ptrStrT) String() string            { return s.s }
+func (e errT) Error() string                 { return e.msg }
+func (e wrapErrT) Error() string             { return e.msg + ": " + e.inner.Error() }
+func (e wrapErrT) Unwrap() error             { return e.inner }
+func (g goT) GoString() string               { return "go:" + g.s }
 func (f fmtT) Format(s fmt.State, verb rune) { fmt.Fprintf(s, "F<%s|%c>", f.payload, verb) }
 func (f recFmtT) Format(s fmt.State, verb rune) {
 	fmt.Fprintf(s, "R[%s %c", f.tag, verb)
@@ -209,7 +212,9 @@ func universe() []Val {
 	add(sv("reflect(nilmap)", true, func(v int) interface{} { return reflect.ValueOf(map[string]int(nil)) }))
 	add(sv("reflect(unexported field)", true, func(v int) interface{} { return reflect.ValueOf(structT{1, secStr[v], nil}).Field(1) }))
 	// --- method-bearing
-	m := func(name string, fmtOK bool, mk func(v int) interface{}) Val { return Val{Name: name, Mk: mk, Fmt: fmtOK} }
+	m := func(name string, fmtOK bool, mk func(v int) interface{}) Val {
+		return Val{Name: name, Mk: mk, Fmt: fmtOK}
+	}
 	add(m("Stringer", true, func(v int) interface{} { return strT{secStrLF[v]} }))
 	add(m("*Stringer", true, func(v int) interface{} { return &ptrStrT{secStr[v]} }))
 	add(m("(*Stringer)(nil)", true, func(v int) interface{} { return (*ptrStrT)(nil) }))
